@@ -170,6 +170,8 @@ def _check_filter(ck, ctx):
     dc = ctx._get("dcmodel", lambda: DCModel(m))
     n = 0
     for mode in sorted(dc.dialect_by_name):
+        if len([o for o in ck.obligations if not o.ok and o.rule == "T-MODE.filter"]) > 12:
+            break           # enough witnesses
         _name, mro, fields = dc.mode_class(mode)
         it = ObjInterp(m, ctx.grammar.tokens_ns, dc)
         td = it.clsd(("simple_ddl_parser.output.table_data", "TableData"))
